@@ -25,6 +25,13 @@ SHIPPED_EVENTS = {
 
 class C09(InterpProp):
     id = 'C09'
+    # observables compared with the model (see InterpProp.normalize)
+    cmp_eff = ('cond',)
+    cmp_step = ()
+    cmp_slot = ()
+    cmp_callbacks = False
+    cmp_err = 'full'
+    cmp_time = False
     quick_cases = 600
     thorough_cases = 20000
     n_ops = 30
